@@ -1,7 +1,7 @@
 (* Executable entry point for the C06 correspondence: aliased butt-cap hairlines of polylines whose
    segments lie inside the clip (no float clipping on that route). *)
 From Coq Require Import ZArith Bool List.
-From TS Require Import Base.F32 Model.Rect Model.PathBuilder Model.Conic Model.RunC14 Model.Edge Model.Hairline Model.LineClip.
+From TS Require Import Base.F32 Model.Rect Model.IntRect Model.RectRound Model.PathBuilder Model.Conic Model.RunC14 Model.Edge Model.Hairline Model.LineClip.
 Import ListNotations.
 Local Open Scope Z_scope.
 
@@ -20,21 +20,52 @@ Fixpoint hair_segments (vs : list verb) (ps : list pt) (last first : pt) : optio
   | _ :: _ => None
   end.
 
+(* hair_line_rgn for one segment with a clip (stroke_path_impl always passes the clip for lines): chop to +-32767,
+   chop to the clip in scalar space, convert to FDot6, walk.  None = a panic *)
+Definition fixed_bounds : option rect := from_ltrb (F32.of_Z (-32767)) (F32.of_Z (-32767)) (F32.of_Z 32767) (F32.of_Z 32767).
+Definition hair_line_rgn_seg (w h : Z) (p0 p1 : pt) : option (list (Z * Z)) :=
+  match fixed_bounds, from_ltrb F32.zero F32.zero (F32.of_Z w) (F32.of_Z h) with
+  | Some fb, Some cb =>
+      match intersect p0 p1 fb with
+      | None => Some []
+      | Some (a, b) =>
+          match intersect a b cb with
+          | None => Some []
+          | Some (c, d) =>
+              hair_line_fd6 (fdot6_from_f32 (px c)) (fdot6_from_f32 (py c)) (fdot6_from_f32 (px d)) (fdot6_from_f32 (py d))
+                            (fdot16_from_f32 (F32.of_Z w)) (fdot16_from_f32 (F32.of_Z h))
+          end
+      end
+  | _, _ => None
+  end.
+
 Fixpoint hair_all (w h : Z) (segs : list (pt * pt)) : option (list (Z * Z)) :=
   match segs with
   | [] => Some []
   | (p0, p1) :: r =>
-      if negb (seg_inside w h p0 p1) then None
-      else
-        match hair_line_fd6 (fdot6_from_f32 (px p0)) (fdot6_from_f32 (py p0)) (fdot6_from_f32 (px p1)) (fdot6_from_f32 (py p1))
-                            (fdot16_from_f32 (F32.of_Z w)) (fdot16_from_f32 (F32.of_Z h)),
-              hair_all w h r with
-        | Some a, Some b => Some (a ++ b)
-        | _, _ => None
-        end
+      match hair_line_rgn_seg w h p0 p1, hair_all w h r with
+      | Some a, Some b => Some (a ++ b)
+      | _, _ => None
+      end
   end.
 
-(* args: w h <builder ops> -> x y pairs of the blits; -9 = outside this model *)
+(* the path-level early outs of stroke_path_impl (butt caps: the bounds are outset by 1) *)
+Definition hair_path_visible (p : path) (w h : Z) : bool :=
+  match rect_outset (pbounds p) F32.one F32.one with
+  | None => false
+  | Some r =>
+      match rect_round_out r, ir_from_xywh 0 0 w h with
+      | Some ib, Some clip =>
+          match ir_intersect clip ib with
+          | None => false
+          | Some _ => if ir_contains clip ib then true
+                      else match ir_make_outset clip 1 1 with Some _ => true | None => false end
+          end
+      | _, _ => false
+      end
+  end.
+
+(* args: w h <builder ops> -> x y pairs of the blits; -9 = outside this model (curves), -2 = a panic *)
 Definition run_hair_spans (l : list Z) : list Z :=
   match l with
   | w :: h :: ops =>
@@ -44,10 +75,12 @@ Definition run_hair_spans (l : list Z) : list Z :=
           match hair_segments (pverbs p) (ppoints p) zero_pt zero_pt with
           | None => [-9]
           | Some segs =>
-              match hair_all w h segs with
-              | None => [-9]
-              | Some bl => flat_map (fun b => [fst b; snd b]) bl
-              end
+              if negb (hair_path_visible p w h) then []
+              else
+                match hair_all w h segs with
+                | None => [-2]
+                | Some bl => flat_map (fun b => [fst b; snd b]) bl
+                end
           end
       end
   | _ => [-3]
